@@ -4,7 +4,7 @@
 
 use std::{io::Write, time::Instant};
 
-use eyeball_verif::{common::*, runners_vec, Params};
+use eyeball_verif::{common::*, runners_adp, runners_vec, Params};
 use serde_json::{json, Value};
 
 struct Spec {
@@ -44,6 +44,48 @@ fn spec(id: &str) -> Option<Spec> {
             run: runners_vec::run_c08,
             level: "exploration",
             rule: "history, then drop of the ObservableVector, then every stream drained to None. Non-trivial = a stream ended after having been pending (woken by the drop), behind, lagged or in the middle of a batch; distinct = hash of the history.",
+            assumptions: BASE_ASSUME,
+        },
+        "C09" => Spec {
+            run: runners_adp::run_c09,
+            level: "exploration",
+            rule: "histories = initial vector + adapter (head/tail/skip, static / dynamic with initial value / purely dynamic, observable- or queue-backed limit stream) + source operations, limit changes, polls, close-limit, drop, on both stream flavours; a tap after the source stream and after the adapter logs every item; at every Pending of the adapter the rebuilt view is compared with first/last/all-but-first p items of the vector's contents (latest announced p), every diff is applied through a checked replica, and the end of the stream is compared with the end of the source. Non-trivial = the adapter emitted at least one diff, at least one quiescent check ran and a non-empty view was checked; distinct = hash of the whole history.",
+            assumptions: BASE_ASSUME,
+        },
+        "C10" => Spec {
+            run: runners_adp::run_c10,
+            level: "exploration",
+            rule: "as C09 for filter / filter_map (v -> v+100 on kept items) with the predicate given as a bit mask over v%4 (all 16 masks). Non-trivial as C09.",
+            assumptions: BASE_ASSUME,
+        },
+        "C11" => Spec {
+            run: runners_adp::run_c11,
+            level: "exploration",
+            rule: "as C09 for sort / sort_by(reverse) / sort_by_key(v/2); oracle = same multiset as the source and adjacent items ordered under the comparison (tie order is free). Non-trivial as C09.",
+            assumptions: BASE_ASSUME,
+        },
+        "C12" => Spec {
+            run: runners_adp::run_c12,
+            level: "exploration",
+            rule: "chains of 2-3 stages, each stage boxed with a tap below it; at every quiescent point (and for the initial values) every stage's replica must be that stage's view of the replica of the stage below. Non-trivial = at least one quiescent check with two non-empty stage views; distinct = hash of the whole history (chain included).",
+            assumptions: BASE_ASSUME,
+        },
+        "C13" => Spec {
+            run: runners_adp::run_c13,
+            level: "exploration",
+            rule: "batched subscriber, transaction-rich histories; after every batch at every tap the replica must be the stage's view of a state its input had at a batch boundary (source: a state between top-level operations), no batch may be empty, and for fixed-parameter chains the flattened batched diffs must equal the unbatched diffs of the same history. Non-trivial = a multi-diff source batch reached the chain and the top stage emitted a batch; distinct = hash of the history.",
+            assumptions: BASE_ASSUME,
+        },
+        "C14" => Spec {
+            run: runners_adp::run_c14,
+            level: "exploration",
+            rule: "every poll of the observed stream gets a fresh flag waker; whenever a poll is Ready (item or end) and the previous poll was Pending, the previous poll's waker must have been woken; evaluated in 'drain after every operation' and in lazy mode, for the plain stream, every adapter and random chains, with source updates, limit changes, limit-stream end and drop of the source as inputs. Non-trivial = at least one such implication was evaluated and the stream emitted something; distinct = hash of the history.",
+            assumptions: BASE_ASSUME,
+        },
+        "C15" => Spec {
+            run: runners_adp::run_c15,
+            level: "exploration",
+            rule: "fixed-limit head(n)/tail(n), alone and as a stage of random chains, both flavours: after every single emitted diff (inside batches too) and for the initial values len(view) <= n. Non-trivial = at least one per-diff bound check ran and the adapter emitted a diff; distinct = hash of the history.",
             assumptions: BASE_ASSUME,
         },
         "C17" => Spec {
